@@ -1111,7 +1111,11 @@ func concatWF(c *Case) *WF {
 	cc := addNode(w, Node{Name: "cat", Kind: KConcat, OutPath: "concat/all.txt",
 		Ins: []InSpec{{Name: "in", From: []Edge{e}}}, Outs: []OutSpec{{Name: "out"}}})
 	if t.Choose(simrt.StGen, 2, 0) == 1 {
-		oneToOne(w, "use", Edge{cc, "out"})
+		u := oneToOne(w, "use", Edge{cc, "out"})
+		if t.Choose(simrt.StGen, 2, 0) == 1 {
+			// (a Go function: it may read its input through FileIP.Open + Size)
+			w.Nodes[u].Custom = 1
+		}
 	}
 	w.MaxTasks = 1 + t.Choose(simrt.StGen, 3, 0)
 	w.Bufsize = bufsizeOf(t)
